@@ -615,6 +615,45 @@ func (t *Topic) runLocal(hub *Hub) {
 
 		case sd := <-t.exit:
 			t.handleTopicTermination(sd)
+			// Sessions keep the subscription until they have processed the detach notice and may
+			// still hand requests to this topic meanwhile.
+			t.answerLateRequests()
+			return
+		}
+	}
+}
+
+// answerLateRequests keeps answering the requests which sessions queue at a topic that has already
+// terminated (they hold the subscription until they process the detach notice). Without it such
+// requests are never answered and a {sub} or {leave} keeps its session's in-flight slot forever.
+func (t *Topic) answerLateRequests() {
+	window := time.NewTimer(lateRequestsWindow)
+	defer window.Stop()
+	for {
+		select {
+		case msg := <-t.reg:
+			if msg.sess != nil {
+				msg.sess.queueOut(ErrLockedReply(msg, types.TimeNow()))
+				if msg.sess.inflightReqs != nil {
+					msg.sess.inflightReqs.Done()
+				}
+			}
+		case msg := <-t.unreg:
+			if msg.sess != nil && msg.init {
+				msg.sess.queueOut(ErrLockedReply(msg, types.TimeNow()))
+				if msg.sess.inflightReqs != nil {
+					msg.sess.inflightReqs.Done()
+				}
+			}
+		case msg := <-t.clientMsg:
+			if msg.sess != nil && msg.init && msg.Pub != nil {
+				msg.sess.queueOut(ErrLockedReply(msg, types.TimeNow()))
+			}
+		case msg := <-t.meta:
+			if msg.sess != nil && msg.init {
+				msg.sess.queueOut(ErrLockedReply(msg, types.TimeNow()))
+			}
+		case <-window.C:
 			return
 		}
 	}
